@@ -24,7 +24,10 @@ inductive Probe
   | osError (msg : Text)     -- OSError = IOError: missing, a directory, path through a file,
                              -- name too long, permission, dangling or looping symlink …
   | unicodeError (msg : Text) -- UnicodeDecodeError (a ValueError, *not* an OSError)
-  | otherError (name : String) -- any other exception class (e.g. ValueError: embedded null byte)
+  | valueError (msg : Text)  -- any other ValueError: `open()` rejects the *name* itself
+                             -- ("embedded null byte"); caught since 9d2590a
+                             -- (`except (IOError, ValueError)`)
+  | otherError (name : String) -- any other exception class (not an OSError, not a ValueError)
 deriving DecidableEq, Repr
 
 inductive FindResult
@@ -42,6 +45,7 @@ def findLoop (allDirs : List Text) : List (Text × Probe) → List Text → Find
   | (_, .text t) :: _, _ => .found t
   | (_, .osError m) :: rest, errs => findLoop allDirs rest (errs ++ [m])
   | (_, .unicodeError m) :: rest, errs => findLoop allDirs rest (errs ++ [m])
+  | (_, .valueError m) :: rest, errs => findLoop allDirs rest (errs ++ [m])
   | (_, .otherError n) :: _, _ => .raised n
 
 /-- `_find_in_dirs_and_read(import_dirs)(file_name)`, given what opening the file does in
